@@ -45,6 +45,24 @@ Lemma pool_add_opt c w :
   c_pool (add_opt c w) = c_pool c ++ match w with Some w => [(c_next c, w)] | None => [] end.
 Proof. destruct w; cbn; [reflexivity|rewrite app_nil_r; reflexivity]. Qed.
 
+Lemma apply_write_view c1 c2 w :
+  view c1 = view c2 -> view (apply_write c1 w) = view (apply_write c2 w).
+Proof.
+  destruct c1 as [h1 t1 g1 d1 p1 n1], c2 as [h2 t2 g2 d2 p2 n2]. unfold view. cbn.
+  intros [= -> -> -> ->]. unfold apply_write, write_ok. cbn.
+  repeat case_match; reflexivity.
+Qed.
+
+Lemma fold_apply_write_view ws : forall c1 c2,
+  view c1 = view c2 -> view (fold_left apply_write ws c1) = view (fold_left apply_write ws c2).
+Proof.
+  induction ws as [|w ws IH]; intros c1 c2 Hv; [exact Hv|]. cbn [fold_left]. apply IH.
+  apply apply_write_view. exact Hv.
+Qed.
+
+Lemma apply_write_next c w : c_next (apply_write c w) = c_next c.
+Proof. unfold apply_write. repeat case_match; reflexivity. Qed.
+
 (** * Executing everything pooled *)
 
 Definition clear_all (p : list (nat * write)) (f : pending) : pending :=
@@ -65,7 +83,8 @@ Lemma land_head id w p s :
          (p_leader s) (p_signers s) (p_solo s)).
 Proof.
   intros Hp. unfold land. rewrite Hp. cbn [list_find fst].
-  rewrite bool_decide_eq_true_2 by reflexivity. cbn [fmap option_fmap option_map prod_map fst snd].
+  rewrite bool_decide_eq_true_2 by reflexivity.
+  case_decide as Hd; [|exfalso; apply Hd; exact I].
   rewrite apply_write_pool, Hp. reflexivity.
 Qed.
 
@@ -102,20 +121,11 @@ Proof.
     destruct IH as (I1 & I2 & I3 & I4 & I5 & I6 & I7 & I8 & I9 & I10 & I11).
     assert (Hv : view (fold_left apply_write (map snd p) (p_chain s1)) =
                  view (fold_left apply_write (map snd p) (apply_write (p_chain s) w))).
-    { assert (G : forall ws c1 c2, view c1 = view c2 ->
-                  view (fold_left apply_write ws c1) = view (fold_left apply_write ws c2)).
-      { induction ws as [|w0 ws IHw]; intros c1 c2 Hv; [exact Hv|]. cbn [fold_left]. apply IHw.
-        unfold view in *. injection Hv as H1 H2 H3 H4.
-        unfold apply_write, write_ok. rewrite H2, H3.
-        repeat case_match; cbn; rewrite ?H1, ?H2, ?H3, ?H4; reflexivity. }
-      apply G. reflexivity. }
+    { apply fold_apply_write_view. reflexivity. }
     cbv zeta. unfold land_fold in *. rewrite I1, Hv.
-    repeat split; try assumption.
-    + rewrite I3. subst s1. cbn. unfold apply_write. repeat case_match; reflexivity.
-    + intros k. destruct (I11 k) as (J1 & J2 & J3). subst s1. rewrite get_signer_clear in J1, J2, J3.
-      cbn [s_tx s_reg s_set] in J1, J2, J3. cbn [p_signers] in *. auto.
-    + intros k. destruct (I11 k) as (J1 & J2 & J3). subst s1. rewrite get_signer_clear in J2.
-      cbn [s_reg] in J2. exact J2.
-    + intros k. destruct (I11 k) as (J1 & J2 & J3). subst s1. rewrite get_signer_clear in J3.
-      cbn [s_set] in J3. exact J3.
+    split; [reflexivity|]. split; [exact I2|]. split; [rewrite I3; subst s1; cbn; apply apply_write_next|].
+    split; [exact I4|]. split; [exact I5|]. split; [exact I6|]. split; [exact I7|]. split; [exact I8|].
+    split; [exact I9|]. split; [exact I10|].
+    intros k. destruct (I11 k) as (J1 & J2 & J3). subst s1. rewrite get_signer_clear in J1, J2, J3.
+    cbn [s_tx s_reg s_set] in J1, J2, J3. auto.
 Qed.
